@@ -19,17 +19,17 @@ ASSUMPTIONS = ['numerical tolerance 1e-4 m / 1e-6 m3/s + 1e-5 relative: a contin
                'a partial step whose instant differs by <= 2 s between the two runs (tank-level event computed from flows that '
                'agree to solver tolerance) is counted as near_tie, not as a violation',
                'cases in which either run does not converge are inconclusive (C16)']
-FLOORS = {'quick': {'conclusive': 50, 'distinct_nontrivial': 30,
-                    'counters': {'parts_run': 200, 'pickled_parts': 50, 'rows_compared': 800, 'cases_with_event_after_pause': 25,
-                                 'tank_cases': 30}},
-          'thorough': {'conclusive': 700, 'distinct_nontrivial': 400,
-                       'counters': {'parts_run': 3000, 'pickled_parts': 800, 'rows_compared': 12000,
-                                    'cases_with_event_after_pause': 400, 'tank_cases': 450}}}
+FLOORS = {'quick': {'conclusive': 70, 'distinct_nontrivial': 60,
+                    'counters': {'parts_run': 220, 'pickled_parts': 70, 'rows_compared': 700, 'cases_with_event_after_pause': 65,
+                                 'tank_cases': 50, 'near_pause_schedule_cases': 25}},
+          'thorough': {'conclusive': 800, 'distinct_nontrivial': 700,
+                       'counters': {'parts_run': 2600, 'pickled_parts': 800, 'rows_compared': 8000, 'cases_with_event_after_pause': 800,
+                                    'tank_cases': 600, 'near_pause_schedule_cases': 300}}}
 CASE_TIMEOUT = {'quick': 180, 'thorough': 400}
 
 
 def n_cases(tier):
-    return 120 if tier == 'quick' else 1600
+    return 240 if tier == 'quick' else 3000
 
 
 def build_case(c, rng):
@@ -51,6 +51,32 @@ def build_case(c, rng):
     ctrlgen.add_random_controls(spec, rng, n=(1, 5))
     if rng.random() < 0.3:
         gnet.add_isolation_schedule(spec, rng, with_leak=0.3)
+    # events placed right after the pause instants (the restart bookkeeping is what is under test), on a rule grid that need
+    # not divide the pause time
+    o = spec['options']
+    hyd, nsteps = o['hydraulic_timestep'], int(o['duration'] // o['hydraulic_timestep'])
+    if nsteps >= 2 and rng.random() < 0.5:
+        npause = rng.randint(1, min(3, nsteps - 1))
+        spec['pauses'] = [p_ * hyd for p_ in sorted(rng.sample(range(0, nsteps), npause))]
+        if hyd >= 120 and rng.random() < 0.7:
+            o['rule_timestep'] = rs = rng.choice([x for x in (420, 7 * 60 + 20, hyd // 2 + 60, (2 * hyd) // 5, (2 * hyd) // 7 + 1, 100, 77) if 30 <= x < hyd] or [hyd])
+        rs = o['rule_timestep']
+        targets = [p_['name'] for p_ in spec['pipes'] if not p_['cv']] + [p_['name'] for p_ in spec['pumps']]
+        used = set(cs.get('target') for cs in spec['controls']) | set(a_['target'] for cs in spec['controls'] if cs['kind'] == 'rule' for a_ in cs['then'] + cs.get('else', []))
+        free = [t_ for t_ in targets if t_ not in used] or targets
+        for ps in spec['pauses']:
+            if not free or rng.random() < 0.25:
+                continue
+            off = rng.choice([0, 1, rs // 2, rs - 1, rs, rs + 1, 2 * rs, hyd // 2])
+            name = 'c%d' % (len(spec['controls']) + 1)
+            tgt = free.pop(rng.randrange(len(free)))
+            if rng.random() < 0.7:
+                cs = {'kind': 'rule', 'name': name, 'priority': rng.randint(1, 5),
+                      'cond': {'kind': 'simtime', 'op': rng.choice(['>=', '>=', '>', '=']), 'time': ps + off},
+                      'then': [{'target': tgt, 'attr': 'status', 'value': 'CLOSED'}]}
+            else:
+                cs = {'kind': 'time', 'name': name, 'time': ps + off, 'target': tgt, 'attr': 'status', 'value': 'CLOSED'}
+            spec['controls'].append(cs)
     return (lambda: gnet.build(spec)), {'spec': spec}, (gnet.signature(spec),), bool(spec['tanks']), spec
 
 
@@ -75,9 +101,13 @@ def run_case(c, rng):
     if nsteps < 2:
         c.inconclusive('too_short')
         return
-    npause = rng.randint(1, min(3, nsteps - 1)) if nsteps > 1 else 1
-    pauses = sorted(rng.sample(range(0, nsteps), npause))
-    pauses = [p * hyd for p in pauses]
+    if spec is not None and spec.get('pauses'):
+        pauses = list(spec['pauses'])
+        c.count('near_pause_schedule_cases')
+    else:
+        npause = rng.randint(1, min(3, nsteps - 1)) if nsteps > 1 else 1
+        pauses = sorted(rng.sample(range(0, nsteps), npause))
+        pauses = [p * hyd for p in pauses]
     pick = [rng.random() < 0.5 for _ in pauses]
     c.sample = dict({k: (v if k != 'spec' else gnet.signature(v)) for k, v in sample.items()}, pauses=pauses, pickle=pick)
     c.set_sig(*(sig + (len(pauses), tuple(pick))))
@@ -202,6 +232,17 @@ def compare(c, full, parts, pauses, hyd, wit):
             a, b = np.asarray(cat.values, dtype=float), np.asarray(f.values, dtype=float)
             if key == 'status':
                 bad = a != b
+                if bad.any():
+                    # a check valve / control valve carrying no flow is open or closed by the path Newton took (both states solve the
+                    # step): with |q| <= Qtol in both runs the label is below the solver tolerance the two runs agree to
+                    wn_ = wit['wn']
+                    qa = np.asarray(pd.concat([p.link['flowrate'] for p in parts]).values, dtype=float)
+                    qb = np.asarray(full.link['flowrate'].values, dtype=float)
+                    internal = np.array([getattr(wn_.get_link(n), 'check_valve', False) or wn_.get_link(n).link_type == 'Valve' for n in f.columns])
+                    tie = bad & internal[None, :] & (abs(qa) <= 2.83168e-6) & (abs(qb) <= 2.83168e-6)
+                    if tie.any():
+                        c.count('zero_flow_status_ties', int(tie.sum()))
+                        bad = bad & ~tie
             else:
                 tol = (1e-4 if key in ('head', 'pressure', 'setting') else 1e-6) + 1e-5 * np.maximum(abs(a), abs(b))
                 if key == 'flowrate':
